@@ -15,7 +15,7 @@ func init() {
 	property("C04",
 		"Static conformance of the mechanisms that keep the output closed: every generated label reference (goto / case / goto_if) is written with the script name as prefix and an id that was registered with registerJumpChunk on every path before the write; chunk labels are rendered exactly for the entry chunk and registered chunks, each chunk once, with its own body; jump destinations are ids of chunks that were created and enqueued (never the 'no chunk' value); nothing is dropped or duplicated on the way (C01.b/c/d: statement conservation, unique ids, single enqueue); every chunk body ends in a goto/terminator or falls through only into the chunk rendered next (C01.f); the optimised order is a permutation (check-before-append); hoisted labels are defined (C06.c); label clash checks (C20.e).",
 		[]string{"a rendered switch chunk is never the last chunk of either order (exemption for switchBranch.destChunkID)", "scheme argument of DESIGN §4 C01/C04"},
-		"C04.a", "C04.b", "C04.c", "C04.f", "C01.b", "C01.c", "C01.d", "C01.f", "C03.b", "C20.e", "C08.a", "C01.e", "C06.c", "C20.d")
+		"C04.a", "C04.b", "C04.c", "C04.f", "C01.b", "C01.c", "C01.d", "C01.f", "C03.b", "C20.e", "C08.a", "C01.e", "C06.c", "C20.d", "C10.f")
 	property("C05",
 		"Static conformance: the optimize flag is read only to choose the order in which the same chunk map is rendered (flag confinement), jump suppression is decided at render time against the actual next chunk (C01.f, both directions), every registered label is referenced on every path after its registration (no label without a reference), the order is a duplicate-free list starting at chunk 0 (C04.f) chosen without map-order dependence (C17.a).",
 		[]string{"scheme argument of DESIGN §4 C05: with C01.f the text of each chunk transfers control to the same successors whatever the order"},
@@ -514,6 +514,42 @@ func c05a(c *Ctx) {
 	fn := c.Fn("emitter.Emitter.renderChunks")
 	if fn == nil {
 		return
+	}
+	// the emitter renders the program it is given: no emitter function writes into an AST node
+	// (New pruning "dead" statements when optimising would change which labels and commands exist)
+	{
+		eff := c.Eff()
+		nAst := 0
+		for _, f := range c.W.FuncsOf("emitter") {
+			if isTestFunc(c.W, f) {
+				continue
+			}
+			for k, site := range eff.sites[f] {
+				if strings.HasPrefix(k, "ast.") || strings.HasPrefix(k, "token.") {
+					nAst++
+					c.Bad("emitter-writes-ast/"+c.W.FuncKey(f)+"["+k+"]", c.W.Pos(site.Pos()), c.W.FuncKey(f)+" writes "+k+": the emitter would change the program it renders (and could do so depending on its options)")
+				}
+			}
+		}
+		c.Check(nAst == 0, "emitter-writes-ast/none", "-", "no emitter function writes a field of an AST node or token it was given", "the emitter modifies the AST")
+		// New keeps its arguments as they are
+		if nw := c.Fn("emitter.New"); nw != nil {
+			for _, fld := range []struct {
+				name string
+				par  int
+			}{{"program", 0}, {"optimize", 1}, {"enableLineMarkers", 2}, {"inputFilepath", 3}} {
+				okStore := false
+				for _, st := range storesToField(nw, "emitter", "Emitter", fld.name) {
+					if fld.par < len(nw.Params) && st.Val == ssa.Value(nw.Params[fld.par]) {
+						okStore = true
+					} else {
+						okStore = false
+						break
+					}
+				}
+				c.Check(okStore, "New/keeps-argument/"+fld.name, c.W.FuncPos(nw), "Emitter."+fld.name+" is the constructor's argument, unchanged", "Emitter."+fld.name+" is not simply the constructor's argument")
+			}
+		}
 	}
 	// all reads of Emitter.optimize
 	nReads := 0
